@@ -222,10 +222,10 @@ pub fn book_case_strategy(cfg: GenCfg) -> BoxedStrategy<BookCase> {
         if wide {
             // also clocks that start just below a power-of-two boundary, so that the history crosses it
             prop_oneof![3 => 0u64..1000, 1 => any::<u64>().prop_map(|t| t >> 2), 2 => (proptest::sample::select(vec![8u32, 16, 24, 31, 32, 40, 48, 56, 62]), 1u64..4, 0u64..40).prop_map(|(p, m, d)| ((1u64 << p).saturating_mul(m).min(1 << 62)).saturating_sub(d)),
-                // the very end of the clock's range (the interpreter keeps histories with clock discipline 2^20 below it)
+                // the very end of the clock's range: u64::MAX is also the value order records carry for "no end time yet"
                 1 => (0u64..6).prop_map(|d| u64::MAX - d)].boxed()
         } else {
-            (0u64..1000).boxed()
+            prop_oneof![24 => 0u64..1000, 1 => (0u64..6).prop_map(|d| u64::MAX - d)].boxed()
         },
         0u32..100,
     );
@@ -234,7 +234,7 @@ pub fn book_case_strategy(cfg: GenCfg) -> BoxedStrategy<BookCase> {
         let f = Frame { tick, mid, wide: cfg.wide, offgrid: cfg.offgrid, narrow: cfg.narrow };
         let trading = off >= cfg.start_off_pct;
         let (tie, drain) = (cfg.tie, cfg.drain);
-        (proptest::collection::vec(op_strategy(&cfg, &f), 0..=cfg.max_len), prop_oneof![5 => Just(0u64), 2 => any::<u64>(), 1 => Just(u64::MAX)]).prop_map(move |(ops, quiet)| BookCase { tick, levels, trading, t0, tie, ops, drain, quiet })
+        (proptest::collection::vec(op_strategy(&cfg, &f), 0..=cfg.max_len), prop_oneof![5 => Just(0u64), 2 => any::<u64>(), 1 => Just(u64::MAX)]).prop_map(move |(ops, quiet)| BookCase { tick, levels, trading, t0, tie, ops, drain, quiet, bulk: vec![] })
     })
     .boxed()
 }
@@ -339,7 +339,13 @@ pub fn core_sequence2(mut idx: u64, depth: usize, advs: &[u64], tick: u32, mid: 
 /// A `Ref` that resolves to exactly id `i` as long as fewer than 4096 orders exist... encoded by
 /// pref = 100 + i (ids < 150) and handled by `resolve_exact`.
 pub fn exact_ref(i: usize) -> Ref {
-    Ref { pref: 100 + i as u8, ix: 0 }
+    if i < 100 {
+        Ref { pref: 100 + i as u8, ix: 0 }
+    } else {
+        // ids beyond the small enumerations: pref 200 + (id >> 16), ix = low 16 bits
+        assert!(i >> 16 < 50, "harness: exact_ref id out of range");
+        Ref { pref: 200 + (i >> 16) as u8, ix: (i & 0xffff) as u16 }
+    }
 }
 
 // ------------------------------------------------------------------------------------------
